@@ -85,7 +85,7 @@ Definition PcInv (cfg : config) (s : state) : Prop :=
   (p = CRelBuf -> let j := getj s (slot cfg (done m)) in
                   j_err j = false /\ j_consumed j = j_size j /\ 0 < j_csize j /\ j_ckneed j = false /\ j_done j = true) /\
   (alldone m = true -> done m = next m /\ forall k, (k < N.to_nat (Mr cfg))%nat -> Stale (getj s k)) /\
-  (match p with CRelAll _ k => forall k', (k' < k)%nat -> getj s k' = job0 | _ => True end).
+  (match p with CRelAll _ k => forall k', (k' < k)%nat -> getj s k' = job0 | CInitSeq => done m = 0 | _ => True end).
 
 Record KInv (cfg : config) (s : state) : Prop := mkK {
   k_len : length (jobs s) = N.to_nat (Mr cfg);
